@@ -206,7 +206,31 @@ func (e *env) wire() {
 
 // ---------- identifiers ----------
 
-func did(dseq uint64) dtypes.DeploymentID { return dtypes.DeploymentID{Owner: addr(0), DSeq: dseq} }
+// The harness talks about deployments 1 (focus), 12 (bystander) and 3 (new); on chain they carry
+// sequence numbers above 2^32 (a deployment's number is chosen by the tenant and is a uint64), with
+// the bystander's decimal rendering extending the focus deployment's.
+const focusDSeq = uint64(1)<<32 + 1
+
+func realDSeq(d uint64) uint64 {
+	switch d {
+	case 1:
+		return focusDSeq
+	case 12:
+		return focusDSeq*10 + 2
+	}
+	return focusDSeq + d
+}
+func logicalDSeq(r uint64) uint64 {
+	for _, d := range []uint64{1, 12, 3} {
+		if realDSeq(d) == r {
+			return d
+		}
+	}
+	return r
+}
+func did(dseq uint64) dtypes.DeploymentID {
+	return dtypes.DeploymentID{Owner: addr(0), DSeq: realDSeq(dseq)}
+}
 func gid(dseq uint64) dtypes.GroupID      { return gidG(dseq, 1) }
 func oid(dseq uint64, o int) mtypes.OrderID { return oidG(dseq, 1, o) }
 func bidid(dseq uint64, o, p int) mtypes.BidID { return bididG(dseq, 1, o, p) }
@@ -289,9 +313,9 @@ func (e *env) snapshot() state {
 		bid: map[mtypes.BidID]mtypes.Bid{}, lease: map[mtypes.LeaseID]mtypes.Lease{}, acct: map[etypes.AccountID]etypes.Account{},
 		pay: map[string]etypes.Payment{}, wallet: map[string]sdk.Int{}}
 	e.dk.WithDeployments(e.ctx, func(d dtypes.Deployment) bool {
-		s.dep[d.DeploymentID.DSeq] = d
+		s.dep[logicalDSeq(d.DeploymentID.DSeq)] = d
 		for _, g := range e.dk.GetGroups(e.ctx, d.DeploymentID) {
-			s.grp[gk{g.GroupID.DSeq, int(g.GroupID.GSeq)}] = g
+			s.grp[gk{logicalDSeq(g.GroupID.DSeq), int(g.GroupID.GSeq)}] = g
 		}
 		return false
 	})
